@@ -263,42 +263,60 @@ func runR031(c *Ctx) {
 
 func isConstErrorReturn(r *ssa.Return) bool { return false }
 
-// successReturns: returns whose error operand may be nil. An error operand
-// that is the error result of a call which is known non-nil on this edge is
-// excluded; an operand that is a call result tested nowhere counts as maybe-nil.
+// successReturns: returns whose error operand may be nil.
 func successReturns(fn *ssa.Function) []*ssa.Return {
 	ei := errIndex(fn)
 	var out []*ssa.Return
 	for _, r := range returnsOf(fn) {
-		if ei < 0 {
+		if ei < 0 || errMayBeNil(r.Results[ei], r.Block(), 0) {
 			out = append(out, r)
-			continue
 		}
-		v := r.Results[ei]
-		if isNilConst(v) {
-			out = append(out, r)
-			continue
-		}
-		// value known non-nil on a dominating edge?
-		nonNil := dominatedByNilEdge(r.Block(), func(x ssa.Value) bool { return x == v || stripConv(x) == stripConv(v) }, false)
-		if nonNil {
-			continue
-		}
-		// constants that are non-nil errors: loads of globals, calls to status.Error etc.
-		switch x := v.(type) {
-		case *ssa.UnOp:
-			if _, ok := x.X.(*ssa.Global); ok {
-				continue
-			}
-		case *ssa.Call:
-			if isPkgFuncCall(x.Common(), "google.golang.org/grpc/status", "Error") || isPkgFuncCall(x.Common(), "google.golang.org/grpc/status", "Errorf") {
-				continue
-			}
-		}
-		// known nil on a dominating edge, or unknown: may be nil
-		out = append(out, r)
 	}
 	return out
+}
+
+// errMayBeNil: can the error value v be nil when control is in block at?
+// Known non-nil: a value tested non-nil on a dominating edge, status.Error*,
+// loads of package-level error variables, util.StatusWrap* of a non-nil
+// error; a phi is non-nil if every incoming value is non-nil at the end of
+// its predecessor.
+func errMayBeNil(v ssa.Value, at *ssa.BasicBlock, depth int) bool {
+	if depth > 6 {
+		return true
+	}
+	if isNilConst(v) {
+		return true
+	}
+	if dominatedByNilEdge(at, func(x ssa.Value) bool { return x == v || stripConv(x) == stripConv(v) }, false) {
+		return false
+	}
+	switch x := v.(type) {
+	case *ssa.UnOp:
+		if _, ok := x.X.(*ssa.Global); ok {
+			return false
+		}
+	case *ssa.Call:
+		cc := x.Common()
+		if isPkgFuncCall(cc, "google.golang.org/grpc/status", "Error") || isPkgFuncCall(cc, "google.golang.org/grpc/status", "Errorf") ||
+			isPkgFuncCall(cc, "fmt", "Errorf") || isPkgFuncCall(cc, "errors", "New") {
+			return false
+		}
+		for _, w := range []string{"StatusWrap", "StatusWrapf", "StatusWrapWithCode", "StatusWrapfWithCode"} {
+			if isPkgFuncCall(cc, modPath+"/pkg/util", w) {
+				return errMayBeNil(cc.Args[0], at, depth+1)
+			}
+		}
+	case *ssa.Phi:
+		for i, e := range x.Edges {
+			if errMayBeNil(e, x.Block().Preds[i], depth+1) {
+				return true
+			}
+		}
+		return false
+	case *ssa.MakeInterface:
+		return false
+	}
+	return true
 }
 
 func runR016(c *Ctx) {
